@@ -1,0 +1,23 @@
+//go:build verif
+
+package cff
+
+import (
+	"bytes"
+
+	"seehuhn.de/go/sfnt/parser"
+)
+
+// Thin export of readIndexAt for the /verif correspondence harness (property C02).
+// Add-only; compiled only with the build tag "verif".  No behaviour is changed.
+
+// VerifReadIndexAt runs readIndexAt on an in-memory reader and also returns the
+// parser position after the call.
+func VerifReadIndexAt(data []byte, pos int32) ([][]byte, int64, error) {
+	p := parser.New(bytes.NewReader(data))
+	idx, err := readIndexAt(p, pos, "verif")
+	if err != nil {
+		return nil, p.Pos(), err
+	}
+	return [][]byte(idx), p.Pos(), nil
+}
